@@ -164,6 +164,7 @@ static void do_op(int c, struct op * o) {
         case 'U': cur.id = (utc_id[o->sig] += 10); break;
         case 'D': cur.id = 100 * t + (++ud_local); cur.n = o->n; break;
         case 'O': cur.id = o->n; cur.en = o->n; break;
+        case 'X': cur.id = o->sig; break;
         default: break;
     }
     shim_log("{\"e\":\"Call\",\"t\":%d,\"key\":\"%s\",\"kind\":\"%c\",\"sig\":%d,\"id\":%lld,\"n\":%d}", t, cur_key, o->kind, o->sig, (long long) cur.id, cur.n);
@@ -193,6 +194,14 @@ static void do_op(int c, struct op * o) {
         }
         case 'O': rc = jls_twr_fsr_omit_data(twr, (uint16_t) o->sig, (uint32_t) o->n); break;
         case 'L': rc = jls_twr_flush(twr); break;
+        case 'X': {
+            // a definition that must be refused (the signal exists): returns an error, changes nothing
+            struct jls_signal_def_s d = {.signal_id = (uint16_t) o->sig, .source_id = 1, .signal_type = JLS_SIGNAL_TYPE_FSR, .data_type = JLS_DATATYPE_F64,
+                .sample_rate = 1000, .samples_per_data = 64, .sample_decimate_factor = 32, .entries_per_summary = 10, .summary_decimate_factor = 10,
+                .annotation_decimate_factor = 10, .utc_decimate_factor = 10, .name = "dup", .units = "u"};
+            rc = jls_twr_signal_def(twr, &d);
+            break;
+        }
         default: break;
     }
     uint64_t fs = 0, fp = 0; int quit = 0; uint32_t h = 0, tl = 0, cn = 0;
